@@ -21,6 +21,7 @@ SPECS = {
         dict(fail_span=[0, 3]),
         dict(fail_span=[0, 3], suspect_span=[1, 2]),
         dict(fail_span=(3, 0), suspect_span=(2, 1), _tuple=True),
+        dict(fail_span=[3, 0], suspect_span=[2, 1]),   # bounds in descending order, as lists (caller-owned objects)
     ]),
     "valid_range_test": dict(mod="axds", kind="series", needs=(), none_ok=True, cfgs=[
         dict(valid_span=[1, 3]),
@@ -92,6 +93,10 @@ def carrier(vals, how):
         return alpha.pylist(vals)
     if how == "tuple":
         return tuple(alpha.pylist(vals))
+    if how in ("ndi", "listi"):  # integer-typed carriers (int64 ndarray / list of python ints); None when not representable
+        if any(v in (NAN, None) or float(v) != int(v) for v in vals):
+            return None
+        return np.array([int(v) for v in vals], dtype="int64") if how == "ndi" else [int(v) for v in vals]
     if how == "mai":  # integer masked array (missing = masked, 7 underneath); None when a value is not integral
         if any(v not in (NAN, None) and float(v) != int(v) for v in vals):
             return None
